@@ -289,6 +289,8 @@ class Evaluator:
                 continue
             if isinstance(s, ast.Assert):
                 continue
+            if isinstance(s, (ast.FunctionDef, ast.Pass)):
+                continue        # a definition does nothing by itself; a call of it that is not understood is reported where it occurs
             if isinstance(s, ast.If):
                 alts = self.alternatives(s.test, env, case) if understood else None
                 if alts is None:
